@@ -113,8 +113,9 @@ class LoopSpec:
     incidental temporaries.  peel = number of leading iterations executed concretely before the invariant is
     established (e.g. to get past a -inf sentinel)."""
 
-    def __init__(self, inv, peel=0, havoc_extra=(), name="loop"):
+    def __init__(self, inv, peel=0, havoc_extra=(), name="loop", variant=None):
         self.inv, self.peel, self.havoc_extra, self.name = inv, peel, tuple(havoc_extra), name
+        self.variant = variant      # variant(env) -> int term: >= 0 whenever the loop test holds, strictly decreasing (termination)
 
     # -- for i in range(a, b)  /  for x in SymSeq
     def run_for(self, interp, s, fr, it):
@@ -192,6 +193,7 @@ class LoopSpec:
         if d == 0:
             if not interp.truth(c):
                 raise PathInfeasible()
+            v0 = self._variant(interp, fr)
             try:
                 interp.exec_block(s.body, fr)
             except _Break:
@@ -199,6 +201,11 @@ class LoopSpec:
             except _Continue:
                 pass
             self._check(interp, fr, None, "preserved")
+            if v0 is not None:
+                v1 = self._variant(interp, fr)
+                a, b = as_int_term(lift(v0)), as_int_term(lift(v1))
+                p.vc(f"{self.name}/variant-nonnegative", a >= 0, kind="termination")
+                p.vc(f"{self.name}/variant-decreases", b < a, kind="termination")
             raise PathEnd()
         if interp.truth(c):
             raise PathInfeasible()
@@ -206,6 +213,15 @@ class LoopSpec:
 
     def _env(self, fr):
         return dict(fr.locals)
+
+    def _variant(self, interp, fr):
+        if self.variant is None:
+            return None
+        interp.spec_depth += 1
+        try:
+            return interp.call_value(self.variant, [self._env(fr)], {})
+        finally:
+            interp.spec_depth -= 1
 
     def _call_inv(self, interp, fr, i):
         args = [self._env(fr)] + ([i] if i is not None else [])
